@@ -52,11 +52,26 @@ def main():
                 return 3
             open(path, 'w').write(s.replace(a.old, a.new))
         if a.tests:
-            p = subprocess.run(['/venv/bin/python', '-m', 'pytest', '-q', '-x', '-p', 'no:cacheprovider',
+            import json
+            import re
+            p = subprocess.run(['/venv/bin/python', '-m', 'pytest', '-q', '-p', 'no:cacheprovider', '-rfE',
                                 '--timeout=900', '--continue-on-collection-errors'],
                                cwd=dst, stdout=subprocess.PIPE, stderr=subprocess.STDOUT, universal_newlines=True)
+            base = json.load(open('/root/.vp/BASELINE.json'))
+            known = set(base['always_fail'])
+            failed = []
+            for l in p.stdout.splitlines():
+                m = re.match(r'(FAILED|ERROR) (\S+)', l)
+                if m:
+                    ident = m.group(2)
+                    path, _, name = ident.partition('::')
+                    mod = path[:-3].replace('/', '.') if path.endswith('.py') else path.replace('/', '.')
+                    key = mod + '::' + (name if not path.endswith('.md') else path.split('/')[-1])
+                    if key not in known and not any(k.endswith('::' + name) and k.startswith(mod) for k in known):
+                        failed.append(ident)
             tail = [l for l in p.stdout.splitlines() if l.strip()][-1:]
-            print('TESTS:', tail[0] if tail else p.returncode)
+            print('TESTS: %s | new failures vs baseline: %d %s' % (tail[0] if tail else p.returncode, len(failed),
+                                                                 failed[:6]))
         env = dict(os.environ)
         env['MCV_REPO'] = dst
         env['MCV_EVIDENCE_DIR'] = os.path.join(tmp, 'evidence')
